@@ -76,7 +76,7 @@ class Native:
             if rc != 0:
                 raise C.MachineryError('native compile failed: %s\n%s' % (src, se[-2000:]))
             return o
-        objs = C.pmap(cobj, [wrapper, os.path.join(C.VERIF, 'e2', 'feat_stubs.cpp')] + [os.path.join(C.REPO, s) for s in repo_srcs])
+        objs = C.pmap(cobj, [wrapper, os.path.join(C.VERIF, 'e2', 'feat_stubs.cpp'), os.path.join(C.VERIF, 'wrappers', 'verif_native_stubs.cpp')] + [os.path.join(C.REPO, s) for s in repo_srcs])
         for sig in sigs:
             src = os.path.join(self.bdir, 'main_%s.cpp' % sig.func)
             open(src, 'w').write(sig.replay_main())
@@ -137,6 +137,7 @@ def run_case(mod, sig, name, sym_inputs, base_constraints, oracle, budget=120, a
     ex = irsym.Executor(mod, timeout=budget, max_paths=max_paths)
     from ir import rbtree
     rbtree.install(ex)
+    ex.stubs['verif_choose'] = lambda ex_, st_, args_, work_: ex_.concretize(st_, args_[0], work_, maxvals=64)
     st = ex.new_state(); st.pc = list(base_constraints)
     args = []; ptrs = {}
     for s in sig.spec:
@@ -187,7 +188,7 @@ def run_case(mod, sig, name, sym_inputs, base_constraints, oracle, budget=120, a
         return R, ex
     R.paths = len(results); R.forks = ex.stats['forks']
     for (fs, rv) in results:
-        if rv == 'ABORT':
+        if isinstance(rv, str) and rv == 'ABORT':
             R.aborts += 1
             if expect_abort is not None:
                 continue
@@ -229,6 +230,7 @@ def concrete_run(mod, sig, values, budget=60):
     ex = irsym.Executor(mod, timeout=budget)
     from ir import rbtree
     rbtree.install(ex)
+    ex.stubs['verif_choose'] = lambda ex_, st_, args_, work_: args_[0]
     st = ex.new_state(); args = []; ptrs = {}
     for s in sig.spec:
         v = values[s[1]]
@@ -245,7 +247,7 @@ def concrete_run(mod, sig, values, budget=60):
     if len(res) != 1:
         return {'status': 'forked?'}
     fs, rv = res[0]
-    if rv == 'ABORT':
+    if isinstance(rv, str) and rv == 'ABORT':
         return {'status': 'abort'}
     outs = {}
     for nm, (p, nb, cnt) in ptrs.items():
